@@ -240,7 +240,7 @@ def _run(ctx):
 
     # ------------------------------------------------------------------ thorough: simulated behaviours with 4 frames / long bodies
     if not ctx.quick and ctx.violations < 25:
-        sc = _consts((1, 2, 3, 4), (0, 4, 8, 300), (28, 36), 4, 4)
+        sc = _consts((2, 3), (0, 8, 300), (28,), 4, 4)
         scfg = tlc.write_cfg(os.path.join(ctx.scratch, "framing_sim.cfg"), constants=sc, invariants=INVARIANTS, deadlock=False)
         sres, behs = tlc.simulate("Framing", scfg, ctx.scratch, num=1500, depth=12, seed=ctx.seed, timeout=900)
         if sres.violation:
